@@ -155,8 +155,10 @@ def handler(case):
                     l.fail(curr_time - prev_time)
         kw["callback"] = cb
     sig = []
+    shared = prepare(case) if case.get("same_object") else None
     for entry in case["entries"]:
-        ps, sim = prepare(case)
+        # (one Simulation object for all entry points of the case when same_object is set: a sequential run, then Monte Carlo runs)
+        ps, sim = shared if shared is not None else prepare(case)
         d = acct.tmpdir("c09_" + entry.replace("/", "_"))
         mode, save = entry.split("/")
         save = save == "save"
@@ -256,7 +258,8 @@ def gen(rng, n, nh=0):
         dt = rng.choice([F(3), F(6)]) if u == 4 else rng.choice([F(1), F(1), F(1, 2)])
         hours = dt * rng.choice([6, 10, 24, 30]) if u != 4 else dt * rng.choice([8, 12])
         entries = rng.sample(["seq/save", "seq/nosave", "mc-debug/save", "mc-pool/save", "mc-debug/nosave"], 2)
-        cases.append({"kind": "run", "spec": spec, "unit": u, "dt": str(dt), "hours": str(hours), "nprof": rng.choice([24, int(hours / dt)]),
+        gen.count = getattr(gen, "count", 0) + 1
+        cases.append({"kind": "run", "spec": spec, "unit": u, "dt": str(dt), "hours": str(hours), "nprof": rng.choice([24, int(hours / dt)]), "same_object": gen.count % 3 == 0,
                       "start": [rng.choice([0, 0, 1, 27]), rng.randint(0, 23), rng.choice([0, 0, 30, 45])], "seed": rng.randint(0, 10 ** 6),
                       "rate": rng.choice([0.0, 300.0, 1500.0]) / float(dt), "trafo_rate": rng.choice([0.0, 0.0, 400.0]) / float(dt), "entries": entries})
     return cases
